@@ -67,6 +67,13 @@ func (p *Pipe) FailReads(err error) {
 	p.cond.Broadcast()
 }
 
+// ReadErrors is how many Read calls returned the injected error so far.
+func (p *Pipe) ReadErrors() int {
+	p.mu.Lock()
+	defer p.mu.Unlock()
+	return p.readErrs
+}
+
 // ClearReadError lets reads block again (a "reconnected" custom transport).
 func (p *Pipe) ClearReadError() {
 	p.mu.Lock()
